@@ -9,6 +9,7 @@
 package main
 
 import (
+	"bytes"
 	"crypto/sha256"
 	"encoding/binary"
 	"errors"
@@ -55,6 +56,9 @@ type TxDesc struct {
 	Tok   int64      `json:"tok"`
 	Ins   [][2]int64 `json:"ins"` // (token, index) of the spent outpoints
 	Nouts int64      `json:"nouts"`
+	// Scr, if present, names for every output the outpoint whose script it
+	// pays to (its script class representative); absent = its own script.
+	Scr [][2]int64 `json:"scr,omitempty"`
 }
 
 // Del is one observed delivery.
@@ -137,6 +141,9 @@ type chainT struct {
 	outputs   [][2]int64          // every real output
 	byHeight  map[int][][2]int64  // real outputs created at a height
 	fakes     [][2]int64          // fake outpoints spent by chain inputs
+	rep       map[[2]int64][2]int64 // script class representative of outputs that share a script
+	filterSet []map[[2]int64]bool   // per height: script classes in the block's filter
+	classes   map[[2]int64][][2]int64 // members of every shared script class
 	toks      []int64
 }
 
@@ -147,12 +154,41 @@ func (ch *chainT) hashOfToken(tok int64) chainhash.Hash {
 	return fakeHash(tok)
 }
 
+// repOf returns the script class (representative outpoint) of an outpoint.
+func (ch *chainT) repOf(o [2]int64) [2]int64 {
+	if r, ok := ch.rep[o]; ok {
+		return r
+	}
+	return o
+}
+
+// scriptOf returns the pkScript an outpoint pays to.
+func (ch *chainT) scriptOf(tok, idx int64) []byte {
+	r := ch.repOf([2]int64{tok, idx})
+	return scriptFor(r[0], r[1])
+}
+
 func buildChain(desc [][]TxDesc) *chainT {
 	ch := &chainT{desc: desc, heightOf: map[chainhash.Hash]int{},
 		tokOfTx: map[chainhash.Hash]int64{}, hashOfTok: map[int64]chainhash.Hash{},
 		nouts: map[int64]int64{}, createH: map[int64]int{}, spendH: map[[2]int64]int{},
-		byHeight: map[int][][2]int64{}}
+		byHeight: map[int][][2]int64{}, rep: map[[2]int64][2]int64{}, classes: map[[2]int64][][2]int64{}}
+	for _, blk := range desc {
+		for _, td := range blk {
+			for j, r := range td.Scr {
+				o := [2]int64{td.Tok, int64(j)}
+				if r != o {
+					ch.rep[o] = r
+					if len(ch.classes[r]) == 0 {
+						ch.classes[r] = append(ch.classes[r], r)
+					}
+					ch.classes[r] = append(ch.classes[r], o)
+				}
+			}
+		}
+	}
 	for h, blk := range desc {
+		fset := map[[2]int64]bool{}
 		var prev chainhash.Hash
 		if h > 0 {
 			prev = ch.hashes[h-1]
@@ -176,6 +212,7 @@ func buildChain(desc [][]TxDesc) *chainT {
 				tx.AddTxIn(wire.NewTxIn(wire.NewOutPoint(&hh, uint32(in[1])), []byte{0x51}, nil))
 				k := [2]int64{in[0], in[1]}
 				spent[k] = true
+				fset[ch.repOf(k)] = true
 				if _, ok := ch.spendH[k]; !ok {
 					ch.spendH[k] = h
 				}
@@ -184,8 +221,9 @@ func buildChain(desc [][]TxDesc) *chainT {
 				}
 			}
 			for j := int64(0); j < td.Nouts; j++ {
-				tx.AddTxOut(wire.NewTxOut(valueOf(td.Tok, j), scriptFor(td.Tok, j)))
+				tx.AddTxOut(wire.NewTxOut(valueOf(td.Tok, j), ch.scriptOf(td.Tok, j)))
 				o := [2]int64{td.Tok, j}
+				fset[ch.repOf(o)] = true
 				ch.outputs = append(ch.outputs, o)
 				ch.byHeight[h] = append(ch.byHeight[h], o)
 			}
@@ -204,6 +242,7 @@ func buildChain(desc [][]TxDesc) *chainT {
 		ch.hashes = append(ch.hashes, bh)
 		ch.heightOf[bh] = h
 		ch.spentAt = append(ch.spentAt, spent)
+		ch.filterSet = append(ch.filterSet, fset)
 	}
 	return ch
 }
@@ -213,7 +252,7 @@ func (ch *chainT) trueMatch(h int64, wl [][2]int64) bool {
 		return false
 	}
 	for _, o := range wl {
-		if ch.spentAt[h][o] {
+		if ch.filterSet[h][o] {
 			return true
 		}
 	}
@@ -226,9 +265,38 @@ func genChain(r *rand.Rand, L int) [][]TxDesc {
 	var unspent, spentL, fakesUsed [][2]int64
 	var all []TxDesc
 	var desc [][]TxDesc
+	var allOuts [][2]int64
+	repOfOut := map[[2]int64][2]int64{}
 	for h := 0; h < L; h++ {
 		var blk []TxDesc
 		add := func(t TxDesc) {
+			// script sharing: an output pays the script of an earlier
+			// output of the same tx (several outputs to one address)
+			// or of an earlier tx (address reuse)
+			share := false
+			t.Scr = make([][2]int64, t.Nouts)
+			for j := int64(0); j < t.Nouts; j++ {
+				o := [2]int64{t.Tok, j}
+				t.Scr[j] = o
+				x := r.Float64()
+				switch {
+				case x < 0.22 && j > 0:
+					t.Scr[j] = t.Scr[r.Int63n(j)]
+				case x < 0.40 && len(allOuts) > 0:
+					t.Scr[j] = repOfOut[allOuts[r.Intn(len(allOuts))]]
+				}
+				if t.Scr[j] != o {
+					share = true
+				}
+			}
+			for j := int64(0); j < t.Nouts; j++ {
+				o := [2]int64{t.Tok, j}
+				repOfOut[o] = t.Scr[j]
+				allOuts = append(allOuts, o)
+			}
+			if !share {
+				t.Scr = nil
+			}
 			blk = append(blk, t)
 			all = append(all, t)
 			for j := int64(0); j < t.Nouts; j++ {
@@ -517,8 +585,8 @@ func (r *runner) encode(rep *neutrino.SpendReport, err error) string {
 		}
 		return fmt.Sprintf("RSpent %s %s %s", c.Z(tok), c.Z(int64(rep.SpendingInputIndex)), c.Z(int64(rep.SpendingTxHeight)))
 	case rep.Output != nil:
-		tok, idx, ok := decodeScript(rep.Output.PkScript)
-		if !ok {
+		tok, idx := rep.Output.Value/1000-1, rep.Output.Value%1000
+		if !bytes.Equal(rep.Output.PkScript, ch.scriptOf(tok, idx)) {
 			return "RHang"
 		}
 		H := int64(-1)
@@ -660,7 +728,7 @@ func (r *runner) exec(op Op) error {
 		r.h.ev[fmt.Sprintf("enq@%d", r.pc())]++
 		req, err := r.sc.Enqueue(&neutrino.InputWithScript{
 			OutPoint: wire.OutPoint{Hash: r.ch.hashOfToken(op.Tok), Index: uint32(op.Idx)},
-			PkScript: scriptFor(op.Tok, op.Idx),
+			PkScript: r.ch.scriptOf(op.Tok, op.Idx),
 		}, uint32(op.Birth), nil)
 		if err != nil {
 			o.Acc = false
@@ -912,6 +980,39 @@ func (g *genT) pickTarget(r *runner) Op {
 	if g.malformed && rng.Intn(8) == 0 {
 		o := ch.outputs[rng.Intn(len(ch.outputs))]
 		return mk(o[0], o[1], tip+1000+int64(rng.Intn(5)))
+	}
+	// the other outputs paying the script of an output requested earlier
+	// (different outpoints, one pkScript), from the same or an earlier height
+	if len(r.reqs) > 0 && rng.Float64() < 0.30 {
+		q := r.reqs[rng.Intn(len(r.reqs))]
+		cl := ch.classes[ch.repOf([2]int64{q.tok, q.idx})]
+		if len(cl) > 1 {
+			o := cl[rng.Intn(len(cl))]
+			if o != [2]int64{q.tok, q.idx} {
+				r.h.ev["ev:shared-script-sibling"]++
+				b := int64(ch.createH[o[0]])
+				if rng.Intn(3) == 0 && q.birth < b {
+					b = q.birth
+				}
+				return mk(o[0], o[1], b)
+			}
+		}
+	}
+	// an output of a shared script class
+	if len(ch.classes) > 0 && rng.Float64() < 0.15 {
+		var keys [][2]int64
+		for k := range ch.classes {
+			keys = append(keys, k)
+		}
+		sort.Slice(keys, func(a, b int) bool {
+			if keys[a][0] != keys[b][0] {
+				return keys[a][0] < keys[b][0]
+			}
+			return keys[a][1] < keys[b][1]
+		})
+		cl := ch.classes[keys[rng.Intn(len(keys))]]
+		o := cl[rng.Intn(len(cl))]
+		return mk(o[0], o[1], int64(ch.createH[o[0]]))
 	}
 	// duplicates of an earlier request
 	if len(r.reqs) > 0 && rng.Float64() < 0.25 {
@@ -1223,6 +1324,44 @@ func corpus() []History {
 		{Name: "dup-earlier-start", Chain: chainB(), Tip0: 5, Ops: []Op{
 			enq(2, 1, 2), opStart, opStep, until(3, 3), {Kind: "step", fp: true},
 			enq(2, 1, 1), opRun}},
+		// 10: two outputs of one tx pay ONE script; (2,0) is spent in block
+		// 2, (2,1) in block 4, which is fetched only through a filter
+		// match on the shared script (truthful filter, no false positive)
+		{Name: "shared-script-later-spend", Chain: chainC(), Tip0: 5, Ops: []Op{
+			enq(2, 0, 1), enq(2, 1, 1), opStart, opRun}},
+		// 11: address reuse across transactions: (4,0) pays the script of
+		// (2,0); (2,0) spent in 3, (4,0) spent in 5
+		{Name: "reused-script-later-spend", Chain: chainD(), Tip0: 6, Ops: []Op{
+			enq(2, 0, 1), opStart, opStep, opStep, enq(4, 0, 2), opRun}},
+	}
+}
+
+// chainC: tx 2 (block 1) has two outputs paying one script.
+func chainC() [][]TxDesc {
+	t2 := tx(2, 2, in(0, 0))
+	t2.Scr = [][2]int64{{2, 0}, {2, 0}}
+	return [][]TxDesc{
+		{tx(0, 1)},
+		{tx(1, 1), t2},
+		{tx(3, 1), tx(4, 1, in(2, 0))},
+		{tx(5, 1)},
+		{tx(6, 1), tx(7, 1, in(1000, 0), in(2, 1))},
+		{tx(8, 1)},
+	}
+}
+
+// chainD: (4,0) in block 2 pays the script of (2,0) of block 1.
+func chainD() [][]TxDesc {
+	t4 := tx(4, 1, in(1, 0))
+	t4.Scr = [][2]int64{{2, 0}}
+	return [][]TxDesc{
+		{tx(0, 1)},
+		{tx(1, 1), tx(2, 1, in(0, 0))},
+		{tx(3, 1), t4},
+		{tx(5, 1), tx(6, 1, in(2, 0))},
+		{tx(7, 1)},
+		{tx(8, 1), tx(9, 1, in(4, 0))},
+		{tx(10, 1)},
 	}
 }
 
@@ -1326,7 +1465,17 @@ func caseTerm(h *History) string {
 		}
 		tr[i] = fmt.Sprintf("(%s, O %d %s %s %s %s)", o, op.PC, c.Z(op.H), pairs(op.WL), c.Bool(op.Acc), c.List(del))
 	}
-	return fmt.Sprintf("(%d, (%s, %s, %s))", h.ID, c.List(blks), c.Z(int64(h.Tip0)), c.List(tr))
+	var sc []string
+	for _, b := range h.Chain {
+		for _, t := range b {
+			for j, r := range t.Scr {
+				if r != [2]int64{t.Tok, int64(j)} {
+					sc = append(sc, fmt.Sprintf("((%s,%s),(%s,%s))", c.Z(t.Tok), c.Z(int64(j)), c.Z(r[0]), c.Z(r[1])))
+				}
+			}
+		}
+	}
+	return fmt.Sprintf("(%d, (%s, %s, %s, %s))", h.ID, c.List(blks), c.List(sc), c.Z(int64(h.Tip0)), c.List(tr))
 }
 
 func writeCases(out string, hs []*History) {
